@@ -131,6 +131,7 @@ package getty
 
 //@ func (*gettyClientHandler).OnMessage
 //@   prop C15
+//@   modifies ghost.all, heap.all
 //@   requires g != nil && isT(pkg, message.RpcMessage)
 //@   let m := pkg.(message.RpcMessage)
 //@   requires m.Body != nil && implements(m.Body, message.MessageTypeAware) && ghost.processed == 0
@@ -140,6 +141,7 @@ package getty
 
 //@ func (*gettyClientHandler).RegisterProcessor
 //@   prop C15
+//@   modifies heap.all
 //@   requires g != nil && g.processorMap != nil
 //@   ensures stored: processor != nil ==> g.processorMap[msgType] == processor
 
@@ -197,6 +199,7 @@ package getty
 
 //@ func (*GettyRemoting).sendAsync
 //@   prop C14
+//@   modifies ghost.wp_calls, ghost.wp_err_nil, ghost.wp_id, syncmapp(g.futures)
 //@   requires g != nil && g.futures != nil && ghost.wp_calls == 0
 //@   let k := some(int32, "k")
 //@   let closed := session == nil
@@ -220,6 +223,7 @@ package getty
 
 //@ func (*GettyRemotingClient).syncCallback
 //@   prop C14
+//@   modifies syncmapp(g.gettyRemoting.futures)
 //@   requires g != nil && g.gettyRemoting != nil && g.gettyRemoting.futures != nil && g.gettyRemoting.mergeMsgMap != nil && respMsg != nil
 //@   let k := some(int32, "k")
 //@   ensures timeout-cleans: selected(0) ==> result1 != nil && syncmapp(g.gettyRemoting.futures)[box(reqMsg.ID, int32)] == nil
@@ -230,6 +234,7 @@ package getty
 
 //@ func (*SessionManager).selectSession
 //@   prop C19
+//@   modifies syncmap(g, "allSessions"), syncmap(g, "serverSessions"), loadbalance.consistentInstance
 //@   requires g != nil
 //@   ensures live: result != nil ==> !ufb("session.closed", result)
 //@   loop 1 invariant none-yet: session == nil && g != nil
@@ -256,6 +261,7 @@ package getty
 // client has registered at least one resource with a resource manager".
 //@ func (*gettyClientHandler).OnOpen$1
 //@   prop C19
+//@   modifies ghost.all, heap.all
 //@   requires ghost.sent == 0 && !ghost.regrm_sent && !ghost.regtm_sent && sessionManager != nil && session != nil
 //@   ensures announce-tm: ghost.regtm_sent && ghost.sent >= 1
 //@   ensures announce-rm: ghost.has_rm_resources ==> ghost.regrm_sent
